@@ -165,7 +165,7 @@ class M_execute_node_inner(MgrCoroContract):
     name = 'DAGRunConcurrentManager.__execute_node'
     returns = 'val'
     yields = True
-    props = ('C12', 'C14', 'C03', 'C04')
+    props = ('C12', 'C14', 'C03', 'C04', 'C13')
     doc = 'retry loop: the configured attempts/delay/exceptions/use_default policy, unbounded in attempts'
     # the property says nothing about a get_default() that itself raises: assumed not to (listed assumption)
     options = {'default_raises': False}
@@ -1522,7 +1522,7 @@ class M_run_recurrent_subgraph(CoroBase):
         out.append(('the-re-run-scope-is-a-subgraph-view|C11', kind == 'sub'))
         if kind == 'sub':
             gv = SubV(snap, g)
-            out += [('re-run-scope-goes-from-the-start-node-to-the-destination|C11', z3.And(gv.source == s, gv.dest == d)),
+            out += [('re-run-scope-goes-from-the-start-node-to-the-destination|C11,C04', z3.And(gv.source == s, gv.dest == d)),
                     ('re-run-scope-is-recurrent-and-keeps-the-one-of-mode|C11,C10', z3.And(gv.is_recurrent, gv.is_oneof == sub.is_oneof)),
                     ('re-run-scope-ignores-case-edges-and-untried-candidates (switch and one-of rules inside an iteration)|C09,C10,C11',
                      snap.getf(g, 'g_fedge') is not None)]
@@ -1533,6 +1533,15 @@ class M_run_recurrent_subgraph(CoroBase):
         if ok:
             out.append(('data-handed-over-before-the-re-run-starts|C11', effs.index(writes[0]) < effs.index(r)))
         return out
+
+    @staticmethod
+    def error_scan_clause(errs, run):
+        """the failure check after an iteration looks at the scope that was just re-run (a failure elsewhere, e.g. in the scope
+        that requested the subgraph, must neither end the re-iteration silently nor be missed)"""
+        if not errs:
+            return []
+        same = isinstance(errs[0].a.dag, Ref) and isinstance(run.a.dag, Ref) and errs[0].a.dag.id == run.a.dag.id
+        return [('the-error-check-of-an-iteration-looks-at-the-scope-just-re-run|C02,C05,C11', same)]
 
     @property
     def loops(self):
@@ -1562,6 +1571,7 @@ class M_run_recurrent_subgraph(CoroBase):
                 errs = calls(effs, '__has_subgraph_error')
                 out.append(('continues-only-on-a-Recurrent-result-without-errors|C11', z3.And(
                     PyV.is_rec(res), z3.BoolVal(bool(errs)))))
+                out += outer.error_scan_clause(errs, runs[0])
             return out
 
         sp = LoopSpec(text='range(max_iterations)', havoc={'node_result': 'val'}, heap_havoc=heap_havoc, inv=inv,
@@ -1609,6 +1619,7 @@ class M_run_recurrent_subgraph(CoroBase):
             if r.exc is None and outcome == 'return':
                 res = T(r.res, st)
                 errs = calls(tail, '__has_subgraph_error')
+                out += self.error_scan_clause(errs, r)
                 if unmarks:
                     out.append(('stops-at-the-first-non-Recurrent-result|C11', z3.Not(PyV.is_rec(res))))
                     out.append(('nothing-else-is-run-after-the-final-iteration|C11', not defaults and not sets))
